@@ -135,6 +135,27 @@ structure Inputs where
   keyId : Bytes
   secret : Bytes
 
+/-- one reading of the clock (`now = datetime.utcnow()`); both date strings are formatted from the same reading -/
+structure ClockReading where
+  year : Nat
+  month : Nat
+  day : Nat
+  hour : Nat
+  minute : Nat
+  second : Nat
+
+def digit (n : Nat) : UInt8 := UInt8.ofNat (0x30 + n % 10)
+def pad2 (n : Nat) : Bytes := [digit (n / 10), digit n]
+/-- `%Y` for years 1000…9999 -/
+def pad4 (n : Nat) : Bytes := [digit (n / 1000), digit (n / 100), digit (n / 10), digit n]
+
+/-- `f'{now:%Y%m%dT%H%M%S}Z'` -/
+def fmtAmzDate (t : ClockReading) : Bytes :=
+  pad4 t.year ++ pad2 t.month ++ pad2 t.day ++ [0x54] ++ pad2 t.hour ++ pad2 t.minute ++ pad2 t.second ++ [0x5A]
+
+/-- `f'{now:%Y%m%d}'` -/
+def fmtDate (t : ClockReading) : Bytes := pad4 t.year ++ pad2 t.month ++ pad2 t.day
+
 /-- `hmac key msg`, `sha msg` (hex digest as bytes of the hex string), `hexOf digest` -/
 structure Crypto where
   hmac : Bytes → Bytes → Bytes
@@ -300,18 +321,17 @@ def Wire.target (w : Wire) : Bytes :=
 
 /-! ## reference: the published algorithm on the wire -/
 
-/-- percent-decoding; `plus = true` also reads `+` as a space (form decoding, what S3 applies to the query) -/
+/-- percent-decoding; `plus = true` also reads `+` as a space (form decoding, what S3 applies to the query).
+A `%` that is not followed by two hex digits is kept literally. -/
 def pctDecode (plus : Bool) : Bytes → Bytes
   | [] => []
-  | [a] => [if plus && a == 0x2B then 0x20 else a]
-  | [a, b] => (if plus && a == 0x2B then 0x20 else a) :: pctDecode plus [b]
   | a :: b :: c :: rest =>
     if a == 0x25 then
       match hexVal b, hexVal c with
       | some x, some y => (x * 16 + y) :: pctDecode plus rest
       | _, _ => a :: pctDecode plus (b :: c :: rest)
     else (if plus && a == 0x2B then 0x20 else a) :: pctDecode plus (b :: c :: rest)
-termination_by s => s.length
+  | a :: t => (if plus && a == 0x2B then 0x20 else a) :: pctDecode plus t
 
 def refCanonicalUri (rawPath : Bytes) : Bytes := awsUriEncode false (pctDecode false rawPath)
 
